@@ -122,10 +122,13 @@ let run (built, ops) =
     (* removeRecursive(tx): tx and its descendants; when tx is not there, its in-mempool children and their descendants *)
     | R i -> let roots = txid i :: List.map (fun t -> t.Model.p_txid) (Model.children_of pool (b i)) in
       (Model.remove_set (Model.desc_txids pool roots) pool, "R" :: acc)
-    (* removeForBlock({tx}): tx alone (its descendants stay), then removeConflicts(tx): every other mempool transaction
-       spending one of its outpoints, recursively *)
-    | B i -> let pool1 = Model.remove_set [txid i] pool in
-      (Model.remove_set (Model.desc_txids pool1 (Model.direct_conflicts pool1 (b i))) pool1, "B" :: acc) in
+    (* a block containing tx contains its unconfirmed ancestors: removeForBlock(ancestors ++ [tx]) removes exactly these
+       (their other descendants stay), then removeConflicts: every other mempool transaction spending one of their
+       outpoints, recursively *)
+    | B i -> let anc = Model.anc_set pool (b i) in
+      let pool1 = Model.remove_set (List.map (fun t -> t.Model.p_txid) anc) pool in
+      let confs = List.concat_map (fun a -> Model.direct_conflicts pool1 a) anc in
+      (Model.remove_set (Model.desc_txids pool1 confs) pool1, "B" :: acc) in
   let (pool, toks) = List.fold_left step ([], []) ops in
   (pool, List.rev toks)
 
